@@ -73,9 +73,9 @@ func TestMain(m *testing.M) {
 	evid.Tests(
 		evid.Spec{Name: "TestReplay", Kind: "plain", QuickShards: 1, ThoroughShards: 1},
 		evid.Spec{Name: "TestExhaustiveTables", Kind: "plain", QuickShards: 1, ThoroughShards: 1},
-		evid.Spec{Name: "TestPropLaws", Kind: "rapid", Quick: 24000, Thorough: 640000, QuickShards: 6, ThoroughShards: 16},
+		evid.Spec{Name: "TestPropLaws", Kind: "rapid", Quick: 20000, Thorough: 640000, QuickShards: 4, ThoroughShards: 16},
 		evid.Spec{Name: "TestPropPattern", Kind: "rapid", Quick: 4000, Thorough: 64000, QuickShards: 1, ThoroughShards: 4},
-		evid.Spec{Name: "TestPropModel", Kind: "rapid", Quick: 24000, Thorough: 800000, QuickShards: 8, ThoroughShards: 16},
+		evid.Spec{Name: "TestPropModel", Kind: "rapid", Quick: 16000, Thorough: 480000, QuickShards: 8, ThoroughShards: 16},
 	)
 	evid.Note("rule", "laws: one fresh object per case over the 38-symbol alphabet (IUPAC + . - [ ], both cases), lengths 1..1100 biased to 1,2,3,299-301,1023-1025, with/without qualities, with/without pairing_mismatches whose positions are biased to the window edges; checked against string-level references: rc, rc.rc, in-place rc, linear window, rc(sub)=sub(rc) mirrored, circular window in every caller form = window of s+s, its mirror law, Copy equality, source untouched. tables: every sequence of length 1 and 2 over the 38 symbols (obiseq), every IUPAC pattern of length 1-2 and generated patterns up to 64 positions with [..] groups (obiapat vs obiseq vs reference), every acgt word of length k=2,4 (obikmer canonical code classes = {w, rc(w)}). model: the case is a generated list of operations (New, Copy, RC in place / copy, Subsequence linear / circular, SetSequence, Write/WriteString/WriteByte(+qualities), SetQualities, SetQualities(nil), SetAttribute/DeleteAttribute, nested-map update, SetFeatures, Join, Recycle, GetSlice/RecycleSlice churn) run against real objects with recycled-slice poisoning on and against a value model; after every operation every live object's String, Qualities, annotations, features must equal its model. Non-trivial: laws = window strictly inside or wrapping with a mismatch position on a window edge or odd length >= 3; model = an object was mutated or recycled while a live object derived from it (or its source) was subsequently read. Distinct = hash of the whole case.")
 	evid.Main(m, "C07")
@@ -428,7 +428,8 @@ func genMism(t *rapid.T, label string, n int, anchors ...int) map[string]int {
 	m := map[string]int{}
 	for j := 0; j < k; j++ {
 		a := ref.MismatchSide{Nuc: mismNucs[rapid.IntRange(0, len(mismNucs)-1).Draw(t, label+"_na")], Qual: j*9 + rapid.IntRange(0, 8).Draw(t, label+"_qa")}
-		b := ref.MismatchSide{Nuc: mismNucs[rapid.IntRange(0, len(mismNucs)-1).Draw(t, label+"_nb")], Qual: 47 + rapid.IntRange(0, 46).Draw(t, label+"_qb")}
+		// the producer records mismatches only: the second base differs from the first
+		b := ref.MismatchSide{Nuc: mismNucs[(strings.IndexByte(mismNucs, a.Nuc)+rapid.IntRange(1, len(mismNucs)-1).Draw(t, label+"_nb"))%len(mismNucs)], Qual: 47 + rapid.IntRange(0, 46).Draw(t, label+"_qb")}
 		cands := []int{1, n}
 		for _, x := range anchors {
 			for _, d := range []int{-1, 0, 1, 2} {
